@@ -48,6 +48,7 @@ RunDef(r) ==
       [] r = "skip3"  -> R(3, "all",    "empty", "quick", "skip")
       [] r = "data"   -> R(1, "data",   "empty", "min",   "all")
       [] r = "sigshape" -> R(1, "sigops", "sigshape", "std", "all")
+      [] r = "undec"  -> R(1, "sigops", "undec", "std", "all")
       [] r = "fad"    -> R(3, "fad",    "fad",   "bare",  "all")
       [] r = "sim"    -> R(40, "small", "empty", "quick", "alive")
       \* thorough tier
@@ -227,6 +228,11 @@ InitStacksOf(InitName) ==
       [] InitName = "lock"  -> Stacks(ElemsLock, 1)
       [] InitName = "sigshape" -> {<<sg, K1c>> : sg \in ShapeSigs} \cup {Multi(E0, <<sg>>, <<K1c>>) : sg \in ShapeSigs}
                                   \cup {Multi(E0, <<sg, SigBy("K1", 0)>>, <<K1c, K2c>>) : sg \in ShapeSigs}
+      [] InitName = "undec" ->
+            LET sigs == UNION {UndecSigs(v) \cup {SigBy("K1", v)} : v \in 0..1} \cup {E0}
+                keys == {K1offc, K1offu, K1h, K1c} IN
+            {<<sg, k>> : sg \in sigs, k \in keys}
+            \cup UNION {{Multi(E0, <<sg>>, <<k>>), Multi(E0, <<sg>>, <<k, K1c>>)} : sg \in sigs, k \in keys}
       [] InitName = "fad"   -> {<<>>, <<E0, E0, E1, K1c, E1>>}
 
 -----------------------------------------------------------------------------
